@@ -12,6 +12,7 @@ use std::collections::BTreeMap;
 
 pub mod c03;
 pub mod c04;
+pub mod c05;
 pub mod c06;
 pub mod c14;
 pub mod c15;
@@ -61,6 +62,15 @@ pub trait Property: Sync {
     /// Whether this property wants a reference run at all.
     fn wants_reference(&self) -> bool {
         true
+    }
+    /// Compute expectation data that needs executions (e.g. one-shot reference programs).
+    /// Returns violations found while doing so (reported against the prepared scenario).
+    fn prepare(&self, _scn: &mut Scenario, _case_seed: u64) -> Vec<(Violation, RunSpec, RunResult)> {
+        Vec::new()
+    }
+    /// Variant-specific client script (default: the scenario's own).
+    fn variant_ops(&self, _scn: &Scenario, _rng: &mut Rng) -> Option<Vec<ClientOp>> {
+        None
     }
     fn draw_cfg(&self, rng: &mut Rng, scn: &Scenario) -> RunCfg {
         default_cfg(rng, scn)
@@ -265,6 +275,15 @@ pub fn run_case(prop: &dyn Property, base_seed: u64, case: u64, tier: Tier, repl
     let mut rep = CaseReport { case, ..Default::default() };
     *rep.families.entry(scn.family.clone()).or_insert(0) += 1;
 
+    for (v, spec, r) in prop.prepare(&mut scn, case_seed) {
+        rep.runs += 1;
+        let vs = split_known(vec![v], known, &mut rep, prop, &scn, None, &spec, &r, case_seed, replay_dir);
+        if let Some(v) = vs.first() {
+            let path = report(prop, &scn, None, &spec, &r, v, case_seed, replay_dir);
+            rep.violations.push(FoundViolation { prop: v.prop.clone(), key: v.key.clone(), rule: v.rule.clone(), detail: v.detail.clone(), replay: path });
+            return rep;
+        }
+    }
     let mut refdata = None;
     if prop.wants_reference() {
         let spec = reference_spec(&scn, case_seed);
@@ -308,7 +327,8 @@ pub fn run_case(prop: &dyn Property, base_seed: u64, case: u64, tier: Tier, repl
         let tail_bound = 50 * scn.est_len * (cfg.nworkers as u64 + 3) + 2000;
         cfg.max_steps = cfg.max_steps.max(sched.fault_stop + tail_bound + 1000);
         let nworkers = cfg.nworkers;
-        let spec = RunSpec { cfg, ops: scn.ops.clone(), modules: scn.modules.clone(), sched, seed: vseed, replay: None, est_len: scn.est_len, tail_bound };
+        let ops = prop.variant_ops(&scn, &mut vr).unwrap_or_else(|| scn.ops.clone());
+        let spec = RunSpec { cfg, ops, modules: scn.modules.clone(), sched, seed: vseed, replay: None, est_len: scn.est_len, tail_bound };
         let r = run_spec(prop, &scn, spec.clone(), false);
         absorb(&mut rep, &scn, &r, nworkers);
         for (k, n) in prop.run_probes(&scn, &r) {
@@ -526,7 +546,7 @@ pub fn report(prop: &dyn Property, scn: &Scenario, refdata: Option<&RefData>, sp
         spec: spec2,
         log_hash: logged.log_hash,
         minimised_from: res.decisions.len(),
-        source: scn.ops.iter().map(op_source).collect(),
+        source: spec.ops.iter().map(op_source).collect(),
         log_tail: tail,
     };
     let _ = std::fs::create_dir_all(replay_dir);
@@ -566,6 +586,7 @@ pub fn lookup(id: &str) -> Option<Box<dyn Property>> {
     match id {
         "C03" => Some(Box::new(c03::C03)),
         "C04" => Some(Box::new(c04::C04)),
+        "C05" => Some(Box::new(c05::C05)),
         "C06" => Some(Box::new(c06::C06)),
         "C14" => Some(Box::new(c14::C14)),
         "C15" => Some(Box::new(c15::C15)),
